@@ -286,10 +286,12 @@ static void* mi_heap_realloc_zero_aligned_at(mi_heap_t* heap, void* p, size_t ne
     // note: we don't zero allocate upfront so we only zero initialize the expanded part
     void* newp = mi_heap_malloc_aligned_at(heap,newsize,alignment,offset);
     if (newp != NULL) {
-      if (zero && newsize > size) {
-        // also set last word in the previous allocation to zero to ensure any padding is zero-initialized
-        size_t start = (size >= sizeof(intptr_t) ? size - sizeof(intptr_t) : 0);
-        _mi_memzero((uint8_t*)newp + start, newsize - start);
+      if (zero) {
+        // also set last word in the previous allocation to zero to ensure any padding is zero-initialized,
+        // and zero up to the usable size of the new block so it stays zero when it later grows in place.
+        const size_t nsize = mi_usable_size(newp);
+        const size_t start = (newsize > size ? (size >= sizeof(intptr_t) ? size - sizeof(intptr_t) : 0) : newsize);
+        if (nsize > start) { _mi_memzero((uint8_t*)newp + start, nsize - start); }
       }
       _mi_memcpy_aligned(newp, p, (newsize > size ? size : newsize));
       mi_free(p); // only free if successful
